@@ -280,7 +280,7 @@ fn spec_strategy() -> impl Strategy<Value = StreamSpec> {
 /// field values: biased to what the property names (non-finite floats, nesting, unicode)
 fn field_value() -> impl Strategy<Value = V> {
     prop_oneof![
-        3 => proptest::sample::select(vec![f64::NAN, f64::INFINITY, f64::NEG_INFINITY, -0.0, 0.0, 1e300, 5e-324, 0.1]).prop_map(V::f),
+        3 => proptest::sample::select(vec![f64::NAN, f64::from_bits(0xFFF8_0000_0000_0000), f64::from_bits(0xFFF0_0000_0000_0001), f64::from_bits(0x7FF0_0000_0000_0001), f64::INFINITY, f64::NEG_INFINITY, -0.0, 0.0, 1e300, 5e-324, 0.1]).prop_map(V::f),
         3 => vh_gen::value(3),
         2 => vh_gen::scalar_with_time(),
         1 => vh_gen::any_string().prop_map(V::Str),
